@@ -408,10 +408,11 @@ def _judge(w, expect, ex, by_t, stats, out, alt):
 
 
 def _pending_before(expect, ex, leaked):
-    """An earlier query (within 1.2 s) may have queued the same record for aggregated multicast."""
+    """An earlier query (within 1.2 s) may have queued the same record for aggregated multicast, one delivered in the same
+    instant may be the reason for an immediate one."""
     keys = {_key(r) for r in leaked}
     for other in expect:
-        if other is ex or other["t"] >= ex["t"] or ex["t"] - other["t"] > 1.25:
+        if other is ex or other["t"] > ex["t"] or ex["t"] - other["t"] > 1.25:
             continue
         return True
     return False
